@@ -101,7 +101,8 @@ class Real:
         s.nfresh = 0
         s.trig = {}            # angle term id -> (sin, cos)
         s.divs = []            # denominators seen (for optional non-zero assumptions)
-        s.sqrt_nonneg_arg = True
+        s.sqrt_raw = []        # (raw argument term, s*s) rewrite pairs
+        s.side = []            # side conditions (sqrt arguments >= 0) the rewrites rely on
     def const(s, f):
         if f != f: return RNAN
         if f == math.inf: return RINF
@@ -144,9 +145,29 @@ class Real:
                 raise Unsupported("division of a symbolic real by literal zero")
             if isinstance(a, Fraction): return a / b
             return a / z3.RealVal(b)
-        s.divs.append(b)
-        if isinstance(a, Fraction): return z3.RealVal(a) / b
-        return a / b
+        # a/b  ->  a * inv(b): inv is an uninterpreted atom with the field axiom instantiated per occurrence,
+        # so that quotients normalise as polynomials over atoms (see DESIGN 2.2, probe notes)
+        t = s.inv(b)
+        if isinstance(a, Fraction):
+            if a == 1: return t
+            return z3.RealVal(a) * t
+        return a * t
+    def canon(s, t):
+        """canonical polynomial form (sum of monomials) so that equal arguments give identical atoms"""
+        return z3.simplify(t, som=True, sort_sums=True, mul_to_power=False)
+    def inv(s, b):
+        # rewrite raw sqrt arguments occurring in the denominator as s*s (sound where the argument is >= 0, which is
+        # recorded in s.side and must be assumed or proved by the harness), then canonicalise
+        if s.sqrt_raw:
+            b = z3.substitute(b, *s.sqrt_raw)
+        b = s.canon(b)
+        t = s.fn('inv', 1)(b)
+        key = ('inv', t.get_id())
+        if key not in s.atoms:
+            s.atoms[key] = t
+            s.divs.append(b)
+            s.axioms.append(z3.Implies(b != 0, t * b == 1))
+        return t
     def fneg(s, a):
         if a is RNAN: return RNAN
         if a is RINF: return RNINF
@@ -234,11 +255,16 @@ class Real:
                 n, d = a.numerator, a.denominator
                 rn, rd = isqrt(n), isqrt(d)
                 if rn * rn == n and rd * rd == d: return Fraction(rn, rd)
-            t = s.fn('sqrt', 1)(s.z(a))
+            raw = s.z(a)
+            a = s.canon(raw)
+            t = s.fn('sqrt', 1)(a)
             key = ('sqrt', t.get_id())
             if key not in s.atoms:
                 s.atoms[key] = t
-                s.axioms.append(z3.Implies(s.z(a) >= 0, z3.And(t >= 0, t * t == s.z(a))))
+                s.axioms.append(z3.Implies(a >= 0, z3.And(t >= 0, t * t == a)))
+                s.side.append(a >= 0)
+            if not z3.is_const(raw) and not any(raw.eq(r0) for r0, _ in s.sqrt_raw):
+                s.sqrt_raw.append((raw, t * t))
             return t
         if name == 'cbrt':
             a = args[0]
